@@ -173,6 +173,16 @@ class _ShapeNF(ast.NodeTransformer):
             if gen(t, "any"):
                 g = gen(t, "any")
                 return [loop(g, g.elt, s.body, s)]
+        if isinstance(s, ast.Assign) and len(s.targets) == 1 and isinstance(s.targets[0], ast.Name):
+            # found = any(E for x in xs)   ->   found = False ; for x in xs: if E: found = True ; break
+            for name, hit in (("any", True), ("all", False)):
+                g = gen(s.value, name)
+                if g is not None:
+                    tgt = s.targets[0].id
+                    init = ast.copy_location(ast.Assign(targets=[ast.Name(id=tgt, ctx=ast.Store())], value=ast.Constant(value=not hit)), s)
+                    setv = ast.copy_location(ast.Assign(targets=[ast.Name(id=tgt, ctx=ast.Store())], value=ast.Constant(value=hit)), s)
+                    test = g.elt if name == "any" else _BoolNF().visit(_negate(g.elt))
+                    return [ast.fix_missing_locations(init), loop(g, test, [ast.fix_missing_locations(setv), ast.copy_location(ast.Break(), s)], s)]
         if isinstance(s, ast.Return) and s.value is not None:
             for name, first, last in (("any", True, False), ("all", False, True)):
                 g = gen(s.value, name)
@@ -182,6 +192,20 @@ class _ShapeNF(ast.NodeTransformer):
                     r2 = ast.copy_location(ast.Return(value=ast.Constant(value=last)), s)
                     return [loop(g, test, [r1], s), ast.fix_missing_locations(r2)]
         return None
+
+    def visit_FunctionDef(self, node):
+        # `if any(E for x in xs): S` as the LAST statement of a function: S is followed by the implicit return, so it is the
+        # same as `for x in xs: if E: S ; return`
+        if "N8" in _OPT and node.body and isinstance(node.body[-1], ast.If) and not node.body[-1].orelse \
+                and not _ends_in_jump(node.body[-1].body):
+            last = node.body[-1]
+            t = last.test
+            inner = t.operand if isinstance(t, ast.UnaryOp) and isinstance(t.op, ast.Not) else t
+            if isinstance(inner, ast.Call) and isinstance(inner.func, ast.Name) and inner.func.id in ("any", "all") \
+                    and len(inner.args) == 1 and isinstance(inner.args[0], ast.GeneratorExp) \
+                    and ((inner.func.id == "any") != (inner is not t)):
+                last.body = list(last.body) + [ast.copy_location(ast.Return(value=None), last)]
+        return self.generic_visit(node)
 
     def _block(self, stmts, chain=False):
         out = []
